@@ -1,7 +1,10 @@
 """C28 — PSyData regions are entered and left in matched pairs.
 
 Correspondence: generated routines (loops with EXIT/CYCLE under IF, early RETURN, forward GOTO, nested
-loops, branches) x every consecutive-statement range of every Schedule x {ProfileTrans, ExtractTrans,
+loops, branches, SELECT CASE, and block constructs that PSyclone keeps as whole CodeBlocks — ASSOCIATE,
+BLOCK, DO with a referenced construct name — containing dense statement lists with clean nested
+constructs and control transfers in every position, nested two deep; the abstraction opens the fparser2
+parse tree of every CodeBlock) x every consecutive-statement range of every Schedule x {ProfileTrans, ExtractTrans,
 NanTestTrans, ReadOnlyVerifyTrans} (plus second applications on already instrumented trees):
 real validate/apply/lower_to_language_level vs. the Lean model (accept/refuse, tree after apply,
 lowered code, region names); `get_unique_region_name` vs. `C28.uniqueNames` on GOcean invokes.
@@ -12,7 +15,7 @@ must be Dyck; region names of the lowered code must be pairwise distinct unless 
 Thorough tier: the instrumented Fortran is compiled with gfortran against a checking PSyData stub
 library and run on 16 input sets (a seeded sample of ~8% of the accepted cases, at most 250).
 
-The model is in FIXED mode (fixes/C28-exit-in-region.patch)."""
+The model is in FIXED mode (fixes/C28-exit-in-region.patch, fixes/C28-return-in-codeblock.patch)."""
 import contextlib
 import glob
 import io
@@ -441,7 +444,9 @@ def run(chk):
         "outside the model",
         "PSyData variables of distinct nodes are distinct (symbol table, checked on every case)",
         "options['node-type-check'] is left at its default",
-        "model is in FIXED mode: fixes/C28-exit-in-region.patch"]
+        "EXIT/CYCLE with a construct name always name the innermost enclosing DO (the model has single-level "
+        "EXIT/CYCLE); SELECT TYPE, WHERE/FORALL constructs inside CodeBlocks are not generated",
+        "model is in FIXED mode: fixes/C28-exit-in-region.patch + fixes/C28-return-in-codeblock.patch"]
     chk.cov["trusted_base"] = [
         "Lean 4.33.0 kernel", "axioms propext/Classical.choice/Quot.sound only (audited)",
         "harness abstraction PSyIR -> C28.Stmt (harness/props/c28_gen.py: abs_node/abs_codeblock/frames_of)",
@@ -538,6 +543,7 @@ def replay_witness(payload, quiet=False):
         return False
     outs = driver("C28", [ln for _, ln in lines])
     out = {k: o for (k, _), o in zip(lines, outs)}
+    case.real["fortran"] = case.real["fortran"] or fortran_of(case)
     say("instrumented code:\n" + (case.real["fortran"] or case.real["lowered"]))
     ex = parse_sx(out["explore"])
     bad = ex[0] == "bad"
